@@ -130,7 +130,8 @@ Record decls := mkDecls {
 Definition read_decl (d : decls) (l : bytes) : decls :=
   if starts_with s_start l then
     let ws := words l in
-    mkDecls (d_starts d ++ [(nth 1 ws [], existsb (bytes_eqb w_noeoi) ws)]) (d_precs d) (d_tokens d)
+    (* "%start name" or "%start name // no-eoi" *)
+    mkDecls (d_starts d ++ [(nth 1 ws [], existsb (bytes_eqb w_noeoi) (skipn 2 ws))]) (d_precs d) (d_tokens d)
   else if starts_with s_token l then
     mkDecls (d_starts d) (d_precs d) (d_tokens d ++ [nth 1 (words l) []])
   else if starts_with s_pct_left l || starts_with s_pct_right l || starts_with s_pct_nonassoc l then
@@ -186,6 +187,10 @@ Definition rule_spec (r : brule) : rrule := (accept (br_value r), rule_prec (br_
 
 Definition expected_groups (g : bgrammar) : list (Z * list rrule) :=
   map (fun '(x, rs) => (x, map rule_spec rs)) (rules_by_nonterm (map (fun r => (br_lhs r, r)) (bg_rules g))).
+
+Definition expected_file (g : bgrammar) : yfile :=
+  mkY (map (fun '(nt, e) => (bg_tokens g + nt, e)) (bg_inputs g)) (bg_prec g) (tl (tokens_without_prec g))
+      (expected_groups g).
 
 (* ---------- well-formedness (boolean) ---------- *)
 (* characters of symbol texts and marker names: no blank, tab, newline, '%', '/', ':', ';', '|' *)
